@@ -158,7 +158,7 @@ CLAIMS = {
         "when it is the root the instruction is exactly OP_EVAL of the script on the remaining stack; (key path) a non-32-byte item under the root makes it exactly OP_CHECK_SIG <allowed> with the root as public key, "
         "hence (no signature extension) exactly the C02 specification's verdict / error of that signature under the root. Lock level (the bytes push <root> taproot <flags> executed symbolically): the key path ends with exactly the C02 verdict of the witness's signature under the root (tapLock_keypath_run); a (script, key) pair that does not recompute to the root leaves 00 - verdict false - with the script never evaluated (tapLock_scriptpath_mismatch). Group level (any commutative group, L*G = 0): builder root P+X = instruction root X+P; the key-spend scalar (x+t) mod L is the root's secret; the untweaked scalar is not. "
         "Tie and exactness on the implementation: root bytes vs an independent pure-Python Ed25519; key path verdict == (flag permitted and signature valid under the root by that independent verifier) for honest / untweaked / other-key / other-script / bit-flipped / other-sigfield / non-permitted-flag witnesses; "
-        "script path: runs exactly when the pair recomputes (script bit, other key, key = root, invalid point, root bit), observed by tapes handed to run_tape and a cache marker; all 256 allowed-flags bytes; native vs non-native on honest + adversarial (C01 family) witnesses at default and restricted limits; lock bytes and every run vs the model.",
+        "script path: runs exactly when the pair recomputes (script bit, other key, key = root, invalid point, root bit), observed by tapes handed to run_tape and a cache marker; all 256 allowed-flags bytes; native vs non-native on honest + adversarial (C01 family) witnesses at default and restricted limits; lock bytes and every run vs the model. Script path that matches, lock level (Props/C05Locks.lean, tapLock_scriptpath_match): a (script, key) pair that recomputes to the root makes the lock evaluate the script on the remaining stack and end with exactly the script's own outcome.",
    note="native vs non-native equivalence is decided by oracle + model correspondence (no theorem about the non-native lock's bytes); two recorded differences are known findings K6 (non-native needs 3 stack slots, a 64-byte item and one more call) and K7 (non-native redefines function 0), both replayed on every run.",
    technique="Lean 4 proof (big-step symbolic execution of OP_TAPROOT on the VM model, refinement of the key path to the C02 pure spec, abelian-group algebra) + independent-Ed25519 oracle + differential correspondence of builder bytes and runs",
    design="§5 C05"),
